@@ -479,7 +479,12 @@ func Apply(mpt util.MerklePatriciaTrieI, ops []Op) error {
 		if o.Kind == "ins" {
 			var v []byte
 			fmt.Sscanf(o.Val, "%x", &v)
-			_, err = mpt.Insert(util.Path(o.Path), Val(v))
+			// through a value object that the caller goes on using (overwritten right after the call)
+			obj := &util.SecureSerializableValue{Buffer: v}
+			_, err = mpt.Insert(util.Path(o.Path), obj)
+			for j := range obj.Buffer {
+				obj.Buffer[j] ^= 0xa5
+			}
 		} else {
 			_, err = mpt.Delete(util.Path(o.Path))
 		}
